@@ -22,8 +22,8 @@ META = dict(
                'then, on each accepting path, natively: get_all_discrete_x, get_graph, get_n_valid_designs, '
                'HierarchyAnalyzer.get_available_combinations_mask / get_graph / get_opt_idx'],
     bounds=dict(value='any integer (discrete) / any real (continuous)', templates='hand-written DSG templates (pools/dsg.py), '
-                '<= 6 design variables, <= 64 valid designs', sequences='fix; fix,decode*,free; fix a,fix b,free,free in both '
-                'orders (<= 4 operations)'),
+                '<= 6 design variables, <= 64 valid designs', sequences='fix; fix,decode*,free; fix,free,fix,free; fix v1,fix v2,free (same variable); fix a,fix b,free,free in '
+                'both orders (<= 4 operations)'),
     outside=['graphs other than the templates', 'the fast selection-choice encoder', 'statistics tables (get_statistics)',
              'continuous variables: accept/reject for all reals and disappearance from des_vars are decided; decodes after '
              'fixing use one representative value (float() concretises it)'],
@@ -308,6 +308,23 @@ def _run_single(inst, res):
         check_same(res, name, 'fix,free,fix', obs_f2, obs_f, cfg, inputs)
         gp2.free_des_var(dv2)
         check_same(res, name, 'fix,free,fix,free', observe(gp2, decode_rows=obs0['rows']), obs0, cfg, inputs)
+    # S3: re-fixing an already fixed variable to another value (no free in between) == fixing the new value on a fresh
+    # processor; freeing afterwards restores the free problem
+    if kinds[0]:
+        fresh_fix = {}
+        for v1, v2 in itertools.permutations(accepted_vals, 2):
+            if v2 not in fresh_fix:
+                ref, _, _ = dsg_pool.make_processor(name)
+                ref.fix_des_var(ref.all_des_vars[k], v2)
+                fresh_fix[v2] = observe(ref)
+            gp3, _, _ = dsg_pool.make_processor(name)
+            dv3 = gp3.all_des_vars[k]
+            gp3.fix_des_var(dv3, v1)
+            observe(gp3)
+            gp3.fix_des_var(dv3, v2)
+            check_same(res, name, 'fix v1,fix v2', observe(gp3), fresh_fix[v2], cfg, dict(values=[v1, v2]))
+            gp3.free_des_var(dv3)
+            check_same(res, name, 'fix v1,fix v2,free', observe(gp3, decode_rows=obs0['rows']), obs0, cfg, dict(values=[v1, v2]))
     res['sample'] = dict(harness=inst['label'], variable=str(dv0), paths=[dict(pc=str(p.pc), outcome=str(p.value)[:120]) for p in ex.paths][:8],
                          accepted_values=accepted_vals, free_rows=len(obs0['rows']))
 
